@@ -1735,15 +1735,26 @@ impl VmGreenThread {
                     return false;
                 }
                 let Some(c) = a.checked_div(b) else {
-                    self.error = Some(self.make_error(VmErrorKind::DivisionByZero).into());
+                    self.error = Some(
+                        self.make_error(VmErrorKind::IntegerOverflowUnderflow)
+                            .into(),
+                    );
                     return false;
                 };
                 self.store_offset_or_top(dest, c);
             }
             Instr::DivideIntImm(dest, reg1, imm) => {
                 let a = self.load_offset_or_top(reg1).get_int(self);
-                let Some(c) = a.checked_div(self.shared.int_constants[imm as usize]) else {
+                let b = self.shared.int_constants[imm as usize];
+                if b == 0 {
                     self.error = Some(self.make_error(VmErrorKind::DivisionByZero).into());
+                    return false;
+                }
+                let Some(c) = a.checked_div(b) else {
+                    self.error = Some(
+                        self.make_error(VmErrorKind::IntegerOverflowUnderflow)
+                            .into(),
+                    );
                     return false;
                 };
                 self.store_offset_or_top(dest, c);
